@@ -12,7 +12,6 @@ from .values import Plain, Other, ReturnedError
 
 
 def _candidates():
-    shared = [1, 2, {'k': 'v'}]
     return [
         0, 1, -7, 2 ** 70, 3.25, -0.0, 1e300, True, False, None,
         '', 'plain', 'quo"te\'s', u'unicodé 中文 \U0001F600', '{"json": [1, 2]}', 'back\\slash\nnewline\ttab',
@@ -20,11 +19,18 @@ def _candidates():
         [], [1, 'a', None], [[1, 2], [3]], (1, 2), (1, ('n', 2)), {1, 2, 3}, set(),
         {}, {'a': 1, 'b': [1, 2]}, {'z': 1, 'a': {'m': 2, 'b': 3}}, {'b': 2, 'a': 1},
         Plain(x=1, y='s'), Plain(inner=Plain(v=[1, 2])), Other(q={'a': (1, 2)}),
-        {'s1': shared, 's2': shared}, [shared, shared],
         'above interception limit', 10 ** 18, 1.5, 'a' * 300,
         ([1, 2], {'k': [3]}), (Plain(m=[1]), 'x'),
-        ReturnedError(), {'error_type': 'ValueError', 'error_repr': "ValueError('x')"},
+        {'error_type': 'ValueError', 'error_repr': "ValueError('x')"},
     ]
+
+
+def shared_candidates():
+    """Values with internal sharing: jsonpickle 0.9.3 numbers shared references (py/id) inconsistently between encode
+    and decode when such a value sits in a document next to other objects, so whether they round-trip depends on the
+    whole document.  They are only used where the whole document is validated first (storebind.composite_is_faithful)."""
+    shared = [1, 2, {'k': 'v'}]
+    return [{'s1': shared, 's2': shared}, [shared, shared]]
 
 
 # pairs of structurally similar values of different type: a key / value scheme that forgets types confuses them
